@@ -1992,6 +1992,23 @@ def misc_family():
         ("hint/match-of-lambdas-argument-wrong-arm", None, "Stacked", body("Util.app(match Opt.Some(a) { Some(q) -> (z) -> z + q, None -> (z) -> b }, 1)")),
         ("callee/function-typed-field-ok", None, None, body("h.fn(1)", "a: int, b: bool, h: H")),
         ("callee/function-typed-field-wrong-argument", None, "Stacked", body("h.fn(b)", "a: int, b: bool, h: H")),
+        # scope of type parameters: a static function sees only its own type parameters (main_checker.rs type_check_module)
+        ("tparam-scope/static-function-own-T-shadows-class-T/missing-arm", None, "NonExhaustiveMatch", decl(
+            "class Wide(Red, Green, Blue) {\n  method k(): int = 0\n}\nclass Narrow(Red, Green) {\n  method k(): int = 0\n}\n"
+            "class Bxs<T: Narrow>(val v: int) {\n  function <T: Wide> f(x: T): int = match x { Red -> 1, Green -> 2 }\n}\n")),
+        ("tparam-scope/static-function-own-T-shadows-class-T/complete-ok", None, None, decl(
+            "class Wide(Red, Green, Blue) {\n  method k(): int = 0\n}\nclass Narrow(Red, Green) {\n  method k(): int = 0\n}\n"
+            "class Bxs<T: Narrow>(val v: int) {\n  function <T: Wide> f(x: T): int = match x { Red -> 1, Green -> 2, Blue -> 3 }\n}\n")),
+        ("tparam-scope/static-function-own-T-unbounded-class-T-ok", None, None, decl(
+            "class Wide(Red, Green, Blue) {\n  method k(): int = 0\n}\n"
+            "class Pls<T>(val v: int) {\n  function <T: Wide> f(x: T): int = match x { Red -> 1, Green -> 2, Blue -> 3 }\n}\n")),
+        ("tparam-scope/static-function-own-T-refutable-let", None, "NonExhaustiveMatch", decl(
+            "class Wide(Red, Green, Blue) {\n  method k(): int = 0\n}\nclass One(Red) {\n  method k(): int = 0\n}\n"
+            "class Bxs<T: One>(val v: int) {\n  function <T: Wide> f(x: T): int = { let Red = x; 1 }\n}\n")),
+        ("tparam-scope/class-T-in-static-function", None, "CannotResolveName", decl(
+            "class Bxs<T>(val v: T) {\n  function f(x: T): int = 1\n}\n")),
+        ("tparam-scope/class-T-in-method-ok", None, None, decl(
+            "class Bxs<T>(val v: T) {\n  method f(x: T): int = 1\n}\n")),
         # lexer: invalid escape in a string literal (lexer.rs:174-176)
         ("lexer/invalid-escape", None, "InvalidSyntax", body("{ let z = \"a\\qb\"; 1 }")),
         ("lexer/valid-escape-ok", None, None, body("{ let z = \"a\\nb\"; 1 }")),
@@ -2185,12 +2202,13 @@ def check_positions(ctx, stats, hist):
             if nb != body:
                 q = dict(base); q["funs"] = [dict(base["funs"][0], body=nb)]
                 jobs.append((f"{family}/{shape}/{'+'.join(kinds)}", "Maybe<Str> where Maybe<int> is required (conflicts with the placeholder)", {"Stacked"}, q))
-    progs = [{"sources": g.render(j[3]), "entry": "Main", "std": False, "compile": True} for j in jobs]
+    # bases are only type-checked here (builder C13's check compiles and runs them); mutants go through compile_sources
+    progs = [{"sources": g.render(j[3]), "entry": "Main", "std": False, "compile": j[1] is not None} for j in jobs]
     answers = eval_programs(progs)
     for (name, label, ek, _), pr, ans in zip(jobs, progs, answers):
         stats["pos"] += 1
         if label is None:
-            if gate_verdict(ans, "Main") == "accept":
+            if ans.get("check") == "done" and not ans["errors"]:
                 stats["pos_accepted"] += 1
             else:
                 ctx.violation(f"position family: base program {name} of builder C13's generic-argument family not accepted",
